@@ -220,7 +220,7 @@ def step (w : W) (toks : List String) : W × String :=
       match c with
       | none => (w, "bad-op")
       | some c =>
-        match e.encodeApi w.cfg.strict c (huff == "1") with
+        match e.encodeForms w.cfg.strict c (huff == "1") with
         | .ok (b, e') =>
           if hasBad then ({ w with encs := aset w.encs id.toNat! e' }, "esc IndexError | " ++ showEnc e')
           else ({ w with encs := aset w.encs id.toNat! e', lastOut := aset w.lastOut id.toNat! b }, "ok " ++ toHex b ++ " | " ++ showEnc e')
